@@ -30,6 +30,11 @@ func fromRecover(v ssa.Value) bool {
 			if bi, ok := x.Call.Value.(*ssa.Builtin); ok && bi.Name() == "recover" {
 				return true
 			}
+		case *ssa.Parameter:
+			// the handler's work moved into a helper: the parameter is the recovered value when every call site says so
+			if curCtx != nil {
+				return curCtx.argAtAllCallSites(x, func(a ssa.Value, _ ssa.CallInstruction) bool { return from(a, d+1) }, 0)
+			}
 		case *ssa.Phi:
 			for _, e := range x.Edges {
 				if from(e, d+1) {
@@ -116,6 +121,8 @@ func simulateHandler(h *ssa.Function, dyn types.Type) []handlerExit {
 	return simulateHandlerX(h, dyn, false)
 }
 
+var simDepth int
+
 // simulateHandlerX with any=true follows both sides of every type assertion (the recovered value is arbitrary).
 func simulateHandlerX(h *ssa.Function, dyn types.Type, any bool) []handlerExit {
 	var exits []handlerExit
@@ -126,6 +133,41 @@ func simulateHandlerX(h *ssa.Function, dyn types.Type, any bool) []handlerExit {
 			return
 		}
 		seen[b] = true
+		// a helper that receives the recovered value continues the handler: its exits are the handler's, except that
+		// where it returns the handler goes on
+		for _, ins := range b.Instrs {
+			call, ok := ins.(*ssa.Call)
+			if !ok {
+				continue
+			}
+			callee := call.Call.StaticCallee()
+			if callee == nil || len(callee.Blocks) == 0 || callee.Pkg != h.Pkg || callee == h || simDepth > 2 {
+				continue
+			}
+			passes := false
+			for _, a := range call.Call.Args {
+				if fromRecover(a) {
+					passes = true
+				}
+			}
+			if !passes {
+				continue
+			}
+			simDepth++
+			inner := simulateHandlerX(callee, dyn, any)
+			simDepth--
+			returns := false
+			for _, e := range inner {
+				if e.kind == "return" {
+					returns = true
+				} else {
+					exits = append(exits, e)
+				}
+			}
+			if !returns && len(inner) > 0 {
+				return // the helper never comes back on this input
+			}
+		}
 		last := b.Instrs[len(b.Instrs)-1]
 		switch x := last.(type) {
 		case *ssa.Return:
